@@ -72,6 +72,20 @@ ChunksMatch(chunks, i, sink, off) ==
 RECURSIVE TotalLen(_, _)
 TotalLen(chunks, i) == IF i > Len(chunks) THEN 0 ELSE Len(chunks[i]) + TotalLen(chunks, i + 1)
 
+(* ---- beyond the listed property: the integer traits the writer relies on (rlib_num_traits) -------------------- *)
+RECURSIVE DigitCountRec(_, _, _)
+\* least k with x < 10^k
+DigitCountRec(x, p, k) == IF BNLt(x, p) THEN k ELSE DigitCountRec(x, BNMulSmall(p, 10), k + 1)
+DigitCount(x) == DigitCountRec(x, <<1>>, 0)
+UMax(bits) == BNSub(BNPow2(bits), BNOne)
+NumTraitsOK(e) ==
+    LET I(v) == BI(v.neg, v.mag)
+    IN /\ e.base10len = DigitCount(UMax(e.bits))            \* BASE_10_LEN: decimal digits of the unsigned maximum
+       /\ I(e.zero) = BIZero /\ I(e.one) = BIFromInt(1)
+       /\ I(e.max) = BI(FALSE, IF e.signed THEN BNSub(BNPow2(e.bits - 1), BNOne) ELSE UMax(e.bits))
+       /\ I(e.min) = (IF e.signed THEN BI(TRUE, BNPow2(e.bits - 1)) ELSE BIZero)
+       /\ I(e.abs_min_plus_one) = (IF e.signed THEN BI(FALSE, BNSub(BNPow2(e.bits - 1), BNOne)) ELSE BIFromInt(1))
+
 Init == pend = <<>> /\ items = <<>> /\ l = 1
 
 Step(e) ==
@@ -88,6 +102,9 @@ Step(e) ==
             /\ pend' = <<>> /\ items' = items
       [] e.ev = "rt" ->
             /\ (e.back # items) => Mismatch(l, e, [written |-> items])
+            /\ UNCHANGED <<pend, items>>
+      [] e.ev = "numtraits" ->
+            /\ (~NumTraitsOK(e)) => Mismatch(l, e, "integer trait constants differ from the type's arithmetic")
             /\ UNCHANGED <<pend, items>>
       [] OTHER -> Mismatch(l, e, "unknown event") /\ UNCHANGED <<pend, items>>
 
